@@ -1,6 +1,6 @@
 SPECIFICATION Spec
 CONSTANTS
-  CELLS <- CELLS_tie
+  CELLS <- CELLS_flaw
   SCR <- SCR_one
   SCRWV <- SCRWV_q
   CENTS <- CENTS_none
@@ -13,4 +13,5 @@ CONSTANTS
   MAXIT = 10
 INVARIANT SameLattice
 INVARIANT NoFlaw
+VIEW ViewCore
 CHECK_DEADLOCK FALSE
